@@ -5,6 +5,7 @@ import (
 	"math"
 	"reflect"
 	"sort"
+	"strconv"
 	"strings"
 	"time"
 	"unsafe"
@@ -124,9 +125,9 @@ func (w *walker) walk(v reflect.Value) {
 		for i := 0; i < c; i++ {
 			if w.paths {
 				if i < n {
-					w.push(fmt.Sprintf("[%d]", i))
+					w.push("[" + strconv.Itoa(i) + "]")
 				} else {
-					w.push(fmt.Sprintf("[spare%d]", i))
+					w.push("[spare" + strconv.Itoa(i) + "]")
 				}
 			}
 			w.walk(full.Index(i))
@@ -135,7 +136,7 @@ func (w *walker) walk(v reflect.Value) {
 	case reflect.Array:
 		for i := 0; i < v.Len(); i++ {
 			if w.paths {
-				w.push(fmt.Sprintf("[%d]", i))
+				w.push("[" + strconv.Itoa(i) + "]")
 			}
 			w.walk(v.Index(i))
 			w.pop()
@@ -235,23 +236,25 @@ type dumpSink struct{ lines []string }
 
 //go:norace
 func (s *dumpSink) num(w *walker, kind string, a, b uint64) {
+	// (no fmt here: the dump also runs on task goroutines, where fmt's sync.Pool would add
+	// happens-before edges between tasks that the program under test does not have)
 	switch kind {
 	case "slice":
-		s.leaf(w, kind, fmt.Sprintf("len=%d cap=%d", a, b))
+		s.leaf(w, kind, "len="+strconv.FormatUint(a, 10)+" cap="+strconv.FormatUint(b, 10))
 	case "int":
-		s.leaf(w, kind, fmt.Sprint(int64(a)))
+		s.leaf(w, kind, strconv.FormatInt(int64(a), 10))
 	case "time":
-		s.leaf(w, kind, fmt.Sprintf("wall=%d ext=%d", a, int64(b)))
+		s.leaf(w, kind, "wall="+strconv.FormatUint(a, 10)+" ext="+strconv.FormatInt(int64(b), 10))
 	case "float":
-		s.leaf(w, kind, fmt.Sprint(math.Float64frombits(a)))
+		s.leaf(w, kind, strconv.FormatFloat(math.Float64frombits(a), 'g', -1, 64))
 	default:
-		s.leaf(w, kind, fmt.Sprint(a))
+		s.leaf(w, kind, strconv.FormatUint(a, 10))
 	}
 }
 
 //go:norace
 func (s *dumpSink) leaf(w *walker, kind string, data string) {
-	s.lines = append(s.lines, fmt.Sprintf("%s %s=%q", strings.Join(w.path, ""), kind, data))
+	s.lines = append(s.lines, strings.Join(w.path, "")+" "+kind+"="+strconv.Quote(data))
 }
 
 // Fingerprint returns the 64-bit hash of everything reachable from the given
